@@ -23,6 +23,11 @@ def classify_direction_value(slots, leaf_info_dirs):
     if all(s == ev.ZERO for s in slots):
         return "zero", None
     plain = [strip_cast(s) for s in slots]
+    # the embedding of a planar direction (its components in order, then exact zeros) is a unit vector too
+    nz = [p for p in plain if p != ev.ZERO]
+    if 0 < len(nz) < len(plain) and plain[:len(nz)] == nz and all(isinstance(p, tuple) and p and p[0] == "leaf" for p in nz) \
+            and all(p[1] in leaf_info_dirs for p in nz):
+        slots, plain = slots[:len(nz)], nz
     if all(isinstance(p, tuple) and p and p[0] == "leaf" for p in plain):
         names = [p[1] for p in plain]
         pref = {re.sub(r"\.value\..*$", "", n) for n in names}
